@@ -19,6 +19,9 @@ package provider
 // chanPending(ch): number of keys the (finite, eventually closed) key stream still delivers
 //@ ghost chanPending(ch <-chan cid.Cid) int
 
+// announcing keys does not touch any state under contract
+//@ func iface MultihashProvider.StartProviding
+
 // Reprovide: every key handed to the router passed the allowlist, and every round of the
 // outer loop reads the key channel at least once (a batch size of 0 would spin forever
 // without ever seeing the end of the key stream)
